@@ -23,6 +23,40 @@ FEATS = [
 ]
 RUNNINGS = ("started", "running")
 FIATLOG = []
+# feature set 2 is rewritten by `fiat_sequences`: one master walks through a chain of frames, each issuing one fiat on a
+# slave whose first outline is guarded by conditions the driver flips between the fiats (ready now, start later ...)
+FEATS.append(dict(nframers=(1, 1), nframes=(3, 7), p_nest=0.2, nslaves=(1, 1), ngo=(0, 0), mark_bids=True, ticks=(10, 20),
+                  nplan=(3, 8)))
+
+
+def fiat_sequences(rng, prog):
+    framers = prog["houses"][0]["framers"]
+    master = [f for f in framers if f["name"] == "m0"][0]
+    slave = [f for f in framers if f["sched"] == "slave"][0]
+    names = [f["name"] for f in master["frames"]]
+    for d in [f for f in framers if f["name"] == "drv"][0]["frames"]:
+        for st in d["stmts"]:
+            if st["v"] == "put":          # the driver flips the shares the slave's conditions read
+                st["dst"] = rng.choice([".c0", ".c1"])
+    kind = None
+    for i, fr in enumerate(master["frames"]):
+        fr["stmts"] = [st for st in fr["stmts"] if st["v"] == "rec"]
+        kind = "start" if kind == "ready" and rng.random() < 0.6 else \
+            rng.choice(["ready", "ready", "ready", "start", "start", "run", "stop", "abort"])
+        fr["stmts"].append({"v": kind, "who": slave["name"], "ctx": rng.choice(["enter", "enter", "recur", "exit"])})
+        far = names[i + 1] if i + 1 < len(names) else names[0]
+        fr["stmts"].append(P.go(far, [P.cmp("recurred", ">=", rng.randint(1, 2))]))
+    frames = []
+    for j in range(rng.randint(1, 3)):
+        name = "x%d" % j
+        base = "%s.%s" % (slave["name"], name)
+        st = [P.rec(base + ".benter", "benter")]
+        if j == 0 or rng.random() < 0.5:
+            st.append({"v": "let", "needs": [P.cmp(rng.choice([".c0", ".c1"]), rng.choice(["==", "!=", ">="]), rng.randint(0, 2))]})
+        st += [P.rec(base + "." + c, c) for c in gen.REC_CTX]
+        frames.append(P.frame(name, st, over=("x%d" % (j - 1)) if j else None))
+    slave["frames"] = frames
+    slave["first"] = None
 
 
 def install_fiat_contracts():
@@ -79,9 +113,11 @@ def worker(ctx, job):
     for seed, fi in job["items"]:
         rng = random.Random(seed)
         prog = gen.gen_program(rng, gen.pickfeat(FEATS, fi))
+        if fi % len(FEATS) == 2:
+            fiat_sequences(rng, prog)
         text = P.render(prog)
         del FIATLOG[:]
-        res = runner.run_text(text, maxticks=prog["ticks"] + 14, post=True)
+        res = runner.run_text(text, maxticks=prog["ticks"] + 14, post=True, watch=gen.WATCH)
         if not res.built:
             ctx.inconclusive_case("generated program did not build: %s" % (res.build_msgs[-1:],))
             continue
@@ -108,6 +144,39 @@ def worker(ctx, job):
         for s in res.sends:
             ctx.event()
             n = s["tasker"]
+            # a start (or ready) from stopped / readied evaluates the first-frame conditions *now*: with the shares as
+            # they are when the control arrives -- whatever an earlier ready found
+            if n in info.S and s["control"] in ("start", "ready") and status.get(n) in ("stopped", "readied") \
+                    and "status" in s and s.get("pre") is not None:
+                S = info.S[n]
+                firsts = S.outline(S.first)
+                needs = [nd for f in firsts for nd in info.guarded.get((n, f), [])]
+                plain_auxes = [a for f in firsts for a in info.plain.get((n, f), [])]
+                verdict = monitors.eval_let(needs, s["pre"]) if needs else True
+                if verdict is False:
+                    ctx.hit("starts_with_false_first_frame_condition")
+                    if status.get(n) == "readied":
+                        ctx.hit("starts_with_false_condition_after_successful_ready")
+                    ents = [e for e in res.trace[s["seq"]:s.get("seq_end", s["seq"])] if e["framer"] == n and e["ctx"] == "enter"]
+                    ctx.check(s["status"] == "stopped" and not ents, "first-frame-condition-false-but-%s" % (
+                        "started" if s["control"] == "start" else "readied"),
+                              "tick %d: %s received %s while a first-frame condition is false, yet became %s (entered %s)" % (
+                                  s["tick"], n, s["control"], s["status"], [e["frame"] for e in ents]),
+                              lambda: wit({"send": {k: s[k] for k in ("tick", "tasker", "control", "status")}, "shares": s["pre"],
+                                           "needs": needs, "status_before": status.get(n)}))
+                elif verdict is True and not plain_auxes and not any(
+                        st["v"] not in ("rec", "let") and (st.get("ctx") or P.NATIVE_CTX.get(st["v"])) == "benter"
+                        for f in firsts for st in S.frames[f]["stmts"]):
+                    # (other before-enter actions, e.g. a `ready` fiat whose result is falsy, may also refuse the entry)
+                    ctx.hit("starts_with_true_first_frame_condition")
+                    want = "started" if s["control"] == "start" else "readied"
+                    ctx.check(s["status"] == want, "first-frame-condition-true-but-not-%s" % want,
+                              "tick %d: %s received %s with every first-frame condition true, yet is %s" % (
+                                  s["tick"], n, s["control"], s["status"]),
+                              lambda: wit({"send": {k: s[k] for k in ("tick", "tasker", "control", "status")}, "shares": s["pre"],
+                                           "needs": needs, "status_before": status.get(n)}))
+            if "status" in s:
+                status[n] = s["status"]
             if n in slaves:
                 ctx.hit("slave_sends")
                 ctx.check(s["depth"] > 0, "slave-run-by-scheduler",
@@ -172,5 +241,8 @@ def run(ctx):
         ctx.floor("fiat_" + k, 10)
     ctx.floor("two_bids_before_run", 10)
     ctx.floor("failed_starts", 5)
+    ctx.floor("starts_with_false_first_frame_condition", 30)
+    ctx.floor("starts_with_false_condition_after_successful_ready", 2)
+    ctx.floor("starts_with_true_first_frame_condition", 100)
     ctx.floor("controls_checked", 2000)
     ctx.floor("slave_sends", 100)
